@@ -597,3 +597,38 @@ theorem visitedAll_sorted (ign : Rng → Bool) : ∀ (groups : List (List Yield)
     exact Key.lt_of_g_lt (by omega)
 
 end Sched
+
+namespace Sched
+
+/-- the accept loop never adds a rewrite whose range is ignored -/
+theorem foldl_accept_ign (ign : Rng → Bool) : ∀ (ps : List (Key × List Rw)) (acc : List (Key × Rw)),
+    (∀ x ∈ acc, ign x.2.r = false) → ∀ x ∈ ps.foldl (accept ign) acc, ign x.2.r = false := by
+  intro ps
+  induction ps with
+  | nil => intro acc h x hx; exact h x (by simpa using hx)
+  | cons p ps ih =>
+    intro acc h
+    rw [List.foldl_cons]
+    apply ih
+    rw [accept_eq]
+    split
+    · exact h
+    · rename_i hc
+      simp only [Bool.or_eq_true, not_or, Bool.not_eq_true] at hc
+      intro x hx
+      rcases List.mem_append.mp hx with hx | hx
+      · exact h x hx
+      · simp only [contrib, List.mem_map] at hx
+        obtain ⟨rw, hrw, rfl⟩ := hx
+        have := hc.1.1
+        simp only [List.any_eq_false] at this
+        simpa using this rw hrw
+
+theorem schedule_ign (ign : Rng → Bool) (groups : List (List Yield)) :
+    ∀ x ∈ schedule ign groups, ign x.2.r = false := by
+  intro x hx
+  unfold schedule at hx
+  rw [List.mem_mergeSort, runGroups_sched] at hx
+  exact foldl_accept_ign ign _ _ (by intro y hy; simp [initState] at hy) x hx
+
+end Sched
